@@ -135,6 +135,13 @@ WORDS = ["alpha", "beta", "gamma", "delta", "omega", "kappa", "sigma", "theta", 
 NONASCII = ["é", "ß", "Ω", "ж", "中", "文", "😀", "𝔘", "ñ", "ü", "€", "日本", "naïve", "Ünï", "a😀b", "\u00e9\u4e2d\U0001f600"]
 
 
+# keywords and reserved words of the dialect: a variant that is one of them (lambda_ -> lambda) would make the whole
+# module fail to parse, so that no attribute error - and no suggestion - is ever produced
+RESERVED = {"and", "else", "load", "break", "for", "not", "continue", "if", "or", "def", "in", "pass", "elif", "lambda", "return",
+            "as", "import", "assert", "is", "class", "nonlocal", "del", "raise", "except", "try", "finally", "while", "from", "with",
+            "global", "yield"}
+
+
 def ident_variants(rng, w):
     """names at edit distance 1-2 of w (several equally close candidates)."""
     out = set()
@@ -153,7 +160,7 @@ def ident_variants(rng, w):
             l = list(w)
             l[i], l[j] = l[j], l[i]
             v = "".join(l)
-        if v != w and re.fullmatch(r"[a-z_][a-z_0-9]*", v):
+        if v != w and re.fullmatch(r"[a-z_][a-z_0-9]*", v) and v not in RESERVED:
             out.add(v)
     return sorted(out)
 
@@ -744,7 +751,7 @@ def replay(ctx, rep):
 
 META = {
     "category": "proof",
-    "level_text": "Partial. Coq theorems (Properties/C14.v, closed under the global context) show for the modelled mechanisms that no seed, address "
+    "level_text": "Partial (the model-level theorems are full; the tie to the real evaluator is differential testing). Coq theorems (Properties/C14.v, closed under the global context) show for the modelled mechanisms that no seed, address "
                   "or allocation history can reach an observation: hash(str) equals the specification series (Java string hash over UTF-16, i32) "
                   "on both code paths for every string; iteration order of SmallMap-backed containers (dict, set, struct fields, scopes, module "
                   "bindings) is the same for every hasher seed, index threshold and sort cut-off and equals the association-list semantics of "
@@ -752,8 +759,14 @@ META = {
                   "candidate of the ORDERED candidate list (stable under reorderings that keep the first candidate per distance; the order of "
                   "equally close candidates IS observable - witness proved), and the candidate list built from the scopes is seed independent; "
                   "observations/truth/type of MiniStar values are invariant under any renaming of store addresses (cyclic values included); the "
-                  "reference semantics is a function.  Allocation-history independence of whole program runs is proved only for the store "
-                  "primitives (C14_renaming_invariance_partial: list allocation at different fresh addresses, emit), not for the interpreter. "
+                  "reference semantics is a function.  Allocation-history independence of the MiniStar interpreter is now proved in full "
+                  "(C14_renaming_invariance, coq/Determ/Renaming*.v): for every fuel, eval, call and exec - and whole programs started from any "
+                  "store (C14_program_renaming_invariance; run_program is the empty-store case) - run from two states related by a partial "
+                  "bijection of list/dict/cell/closure addresses (related contents, equal lock counts, equal transcripts; unrelated addresses "
+                  "i.e. garbage and allocation order unconstrained) end the same way (Ok / the same error and line / out of fuel) with equal "
+                  "transcripts, related results and final states related for an extension of the bijection; every value operation used by "
+                  "the interpreter (veq, vcmp, truth, hashable, obs_of, dict_get/set/del/update, sorting, binop/unop/index/slice, every "
+                  "builtin and method, bind_params, sorted(key=, reverse=) call-backs) is shown to respect the relation. "
                   "The property for the real evaluator, type checker and linter is decided by cross-process differential runs with byte-exact "
                   "comparison of complete observations.",
     "level_note": "Trusted: Coq kernel; harness bin determ as the definition of 'observable'; the Python driver; kernel ASLR / setarch -R and "
